@@ -30,7 +30,7 @@ Definition is_arith_op (o : binop) : bool :=
 
 Fixpoint sty (E : senv) (e : expr) : sres ty :=
   match e with
-  | EInt n => if in_i64b n then SOk TyInt else SBad VLiteralRange
+  | EInt n => if (0 <=? n) && in_i64b n then SOk TyInt else SBad VLiteralRange
   | EBool _ => SOk TyBool
   | EVar x => match tlookup x E with
               | Some (TyUnk, _) => SBad VUnbound
@@ -75,7 +75,7 @@ Definition in_top (x : ident) (E : senv) : bool :=
   end.
 
 Definition sty_int (E : senv) (e : expr) : sres unit :=
-  match sty E e with SOk TyInt => SOk tt | SOk _ => SBad VRangeArg | SBad k => SBad k end.
+  match sty E e with SOk TyInt => SOk Datatypes.tt | SOk _ => SBad VRangeArg | SBad k => SBad k end.
 
 Fixpoint static_stmt (lp : bool) (E : senv) (s : stmt) {struct s} : sres senv :=
   match s with
@@ -128,7 +128,7 @@ Fixpoint static_stmt (lp : bool) (E : senv) (s : stmt) {struct s} : sres senv :=
       let args := match r with R1 e => [e] | R2 a z => [a; z] | R3 a z s => [a; z; s] end in
       match (fix go (l : list expr) : sres unit :=
                match l with
-               | [] => SOk tt
+               | [] => SOk Datatypes.tt
                | e :: rest => match sty_int E e with SOk _ => go rest | SBad v => SBad v end
                end) args with
       | SBad v => SBad v
@@ -146,8 +146,8 @@ with static_block (lp : bool) (E : senv) (b : block) {struct b} : sres senv :=
   end
 with static_els (lp : bool) (E : senv) (el : els) {struct el} : sres unit :=
   match el with
-  | ENone => SOk tt
-  | EElse b => match static_block lp ([] :: E) b with SOk _ => SOk tt | SBad v => SBad v end
+  | ENone => SOk Datatypes.tt
+  | EElse b => match static_block lp ([] :: E) b with SOk _ => SOk Datatypes.tt | SBad v => SBad v end
   | EElif c b rest =>
       match sty E c with
       | SOk TyBool =>
